@@ -3,8 +3,10 @@
 // A per-sample model and a table layout are drawn, serialised by the harness' own writer
 // (mp4build.BuildProgressive), decoded by the library (mp4.DecodeFile) and then every query the
 // library offers on the sample tables is compared with the naive expansion of the table entries
-// (tablemodel), for every sample number, every chunk, every interval (all of them for N <= 40) and
-// all sample start times +-1.
+// (tablemodel), for every sample number, every chunk (incl. its sample description index), every
+// interval (all of them for N <= 40) and all sample start times +-1. The generator includes empty
+// samples (size 0, up to whole chunks and tracks without bytes), zero-count stts/ctts entries and, for
+// the tables rebuilt through the API, co64 offsets beyond 32 bits.
 package c09
 
 import (
@@ -46,9 +48,23 @@ func TestReplay(t *testing.T) { harness.ReplayPath(t) }
 // that the search continues behind them. Each name has a reproducer /verif/replay/C09/kf-<name>.json
 // (those cases carry "noAvoid": true, so replaying them shows the failure).
 var avoidKnown = map[string]bool{
-	// (empty) The two confirmed defects found while building this check were repaired in /repo
+	// The two confirmed defects found while building this check were repaired in /repo
 	// ("fix:" commits aa1187f TrakBox.GetSampleData index, 8f32030 NewSdtpEntry); their reproducers
 	// replay/C09/fixed-*.json are replayed on every run as regression inputs.
+	//
+	// Found by the audit extensions, repaired in /repo (reproducers replay/C09/fixed-<name>.json):
+	//
+	// SttsBox.GetSampleNrAtTime recognises the final zero-duration sample only when the LAST table entry is
+	// (1, 0): with zero-count entries after it (e.g. stts [(1,0),(0,0)]) the start time of that sample gives
+	// "no matching sample found". Oracle side: that one time value is not queried on such tables.
+	"stts-getsamplenrattime-final-zero-dur-before-zero-count-entry": false, // repaired in /repo (fix: 53c79ef)
+	// File.CopySampleData on a file decoded with the mdat in memory: when every mdat box of the file is empty
+	// (all samples of all tracks have size 0 and there are extra empty mdat boxes), File.Mdat is the LAST
+	// mdat box; a chunk offset that points at the (empty) payload of an earlier one gives
+	// offset-PayloadAbsoluteOffset() < 0 as uint64 and the slice expression panics instead of copying 0
+	// bytes (also after DecModeLazyMdat: an empty mdat is never lazy). Oracle side: the copies are not made
+	// when all mdat boxes are empty and File.Mdat is not the one the chunk offsets point into.
+	"copysampledata-all-mdat-empty-wrong-box": false, // repaired in /repo (fix: 0efe418)
 }
 
 // allIntervalsMax: up to this many samples every interval 1<=a<=b<=N is evaluated.
@@ -61,7 +77,10 @@ type tablesCase struct {
 	Variant    string              `json:"variant"`             // "decode" (default) | "api"
 	Intervals  [][2]uint32         `json:"intervals,omitempty"` // evaluated when N > allIntervalsMax
 	WorkSpace  int                 `json:"workSpace"`           // work space size for the lazy CopySampleData
-	NoAvoid    bool                `json:"noAvoid,omitempty"`   // ignore avoidKnown (reproducers of known findings)
+	// OffsetShift (variant "api" on a co64 track only) is added to every chunk offset of the rebuilt co64 box
+	// and of the reference, so that offsets beyond 32 bits are queried; the data copies are left out then
+	OffsetShift uint64 `json:"offsetShift,omitempty"`
+	NoAvoid     bool   `json:"noAvoid,omitempty"` // ignore avoidKnown (reproducers of known findings)
 }
 
 type stats struct {
@@ -211,6 +230,20 @@ func evalTables(c *tablesCase, st *stats) *harness.Fail {
 		pos[nr] = len(all)
 	}
 	nc := x.NrChunks()
+	if c.OffsetShift != 0 {
+		if c.Variant != "api" || !tb.Co64 || c.OffsetShift > 1<<62 {
+			return harness.Failf("harness|c09|bad-case", "offset shift %d needs variant api and a co64 track", c.OffsetShift)
+		}
+		shifted := *tb
+		shifted.ChunkOffsets = make([]uint64, len(tb.ChunkOffsets))
+		for i, o := range tb.ChunkOffsets {
+			shifted.ChunkOffsets[i] = o + c.OffsetShift
+		}
+		tb = &shifted
+		if x, err = tb.Expand(); err != nil {
+			return harness.Failf("harness|c09|reference-parse", "shifted tables: %v", err)
+		}
+	}
 
 	// the library's view
 	f, err := mp4.DecodeFile(bytes.NewReader(file))
@@ -245,6 +278,9 @@ func evalTables(c *tablesCase, st *stats) *harness.Fail {
 			stbl.Stts != nil, stbl.Ctts != nil, stbl.Stsc != nil, stbl.Stsz != nil, stbl.Stco != nil, stbl.Co64 != nil, stbl.Stss != nil, stbl.Sdtp != nil)
 	}
 	q := &st.queries
+	if stbl.Sdtp != nil && len(stbl.Sdtp.Entries) != n {
+		return harness.Failf("C09|SdtpBox|number of entries differs", "%d entries, %d samples", len(stbl.Sdtp.Entries), n)
+	}
 
 	// ---- counts
 	*q += 2
@@ -290,6 +326,17 @@ func evalTables(c *tablesCase, st *stats) *harness.Fail {
 				return harness.Failf("C09|StssBox.IsSyncSample|sync status differs", "IsSyncSample(%d) = %v, stss %v", nr, got, tb.Stss)
 			}
 		}
+		if stbl.Sdtp != nil {
+			// ISO/IEC 14496-12 8.6.4.2: is_leading, sample_depends_on, sample_is_depended_on, sample_has_redundancy, 2 bits each from the top
+			*q += 4
+			e, b := stbl.Sdtp.Entries[nr-1], x.Sdtp[nr]
+			got := [4]uint8{e.IsLeading(), e.SampleDependsOn(), e.SampleIsDependedOn(), e.SampleHasRedundancy()}
+			want := [4]uint8{b >> 6 & 3, b >> 4 & 3, b >> 2 & 3, b & 3}
+			if got != want {
+				return harness.Failf("C09|SdtpEntry accessors|field differs from the 2-bit field of the entry byte",
+					"sample %d: sdtp byte %#02x: IsLeading/SampleDependsOn/SampleIsDependedOn/SampleHasRedundancy = %v, bit fields %v", nr, b, got, want)
+			}
+		}
 		ch, first, err := stbl.Stsc.ChunkNrFromSampleNr(nr)
 		if err != nil {
 			return harness.Failf("C09|StscBox.ChunkNrFromSampleNr|error for valid sample", "ChunkNrFromSampleNr(%d): %v (stsc %v)", nr, err, tb.Stsc)
@@ -325,7 +372,10 @@ func evalTables(c *tablesCase, st *stats) *harness.Fail {
 		offName = "Co64Box.GetOffset"
 	}
 	for cn := 1; cn <= nc; cn++ {
-		*q += 2
+		*q += 3
+		if got := stbl.Stsc.GetSampleDescriptionID(cn); got != x.Chunks[cn].DescIdx {
+			return harness.Failf("C09|StscBox.GetSampleDescriptionID|description index differs", "GetSampleDescriptionID(%d) = %d, expansion %d (stsc %v)", cn, got, x.Chunks[cn].DescIdx, tb.Stsc)
+		}
 		want := mp4.Chunk{ChunkNr: uint32(cn), StartSampleNr: x.Chunks[cn].FirstSample, NrSamples: x.Chunks[cn].NrSamples}
 		if got := stbl.Stsc.GetChunk(uint32(cn)); got != want {
 			return harness.Failf("C09|StscBox.GetChunk|chunk differs", "GetChunk(%d) = %+v, expansion %+v (stsc %v)", cn, got, want, tb.Stsc)
@@ -336,6 +386,21 @@ func evalTables(c *tablesCase, st *stats) *harness.Fail {
 		}
 		if off != x.Chunks[cn].Offset {
 			return harness.Failf("C09|"+offName+"|offset differs", "GetOffset(%d) = %d, table %d", cn, off, x.Chunks[cn].Offset)
+		}
+	}
+	if c.Variant == "api" && nc > 0 {
+		// SetSingleSampleDescriptionID on a copy: that value for every chunk, the original keeps its own
+		single := *stbl.Stsc
+		v := x.Chunks[nc].DescIdx%3 + 1 + uint32(n%2)*3
+		single.SetSingleSampleDescriptionID(v)
+		for cn := 1; cn <= nc; cn++ {
+			*q += 2
+			if got := single.GetSampleDescriptionID(cn); got != v {
+				return harness.Failf("C09|StscBox.SetSingleSampleDescriptionID|description index differs", "after SetSingleSampleDescriptionID(%d): GetSampleDescriptionID(%d) = %d (stsc %v)", v, cn, got, tb.Stsc)
+			}
+			if got := stbl.Stsc.GetSampleDescriptionID(cn); got != x.Chunks[cn].DescIdx {
+				return harness.Failf("C09|StscBox.SetSingleSampleDescriptionID|changed the box it was copied from", "GetSampleDescriptionID(%d) = %d, expansion %d (stsc %v)", cn, got, x.Chunks[cn].DescIdx, tb.Stsc)
+			}
 		}
 	}
 	for _, cn := range []int{0, nc + 1, -1} {
@@ -350,6 +415,10 @@ func evalTables(c *tablesCase, st *stats) *harness.Fail {
 		*q++
 		want := x.SampleNrAtTime(t)
 		got, err := stbl.Stts.GetSampleNrAtTime(t)
+		if t == x.TotalDur && x.Dur[n] == 0 && len(tb.Stts) > 0 && tb.Stts[len(tb.Stts)-1].Count == 0 &&
+			c.avoid(st, "stts-getsamplenrattime-final-zero-dur-before-zero-count-entry") {
+			return nil
+		}
 		if t > x.DecodeTime[n] && t < x.TotalDur {
 			// strictly inside the last sample: "the sample number at or as soon as possible after time" is the
 			// position after the last sample, N+1, without error (the library's own stts_test.go pins this and
@@ -454,19 +523,32 @@ func evalTables(c *tablesCase, st *stats) *harness.Fail {
 				}
 			}
 		}
+		if c.OffsetShift != 0 {
+			*q -= 2
+			return nil // the shifted offsets point outside the file: no data copies
+		}
 		// sample data: in-memory mdat, lazy mdat without and with work space
 		wantBytes := all[pos[a-1]:pos[b]]
 		out.Reset()
-		if err := f.CopySampleData(&out, nil, trak, a, b, nil); err != nil {
-			return harness.Failf("C09|File.CopySampleData|error for valid interval", "CopySampleData(%d,%d): %v (N=%d)", a, b, err, n)
-		}
-		if !bytes.Equal(out.Bytes(), wantBytes) {
-			return harness.Failf("C09|File.CopySampleData|copied bytes differ", "CopySampleData(%d,%d) wrote %s, the samples are %s", a, b, harness.HexTrunc(out.Bytes(), 48), harness.HexTrunc(wantBytes, 48))
+		if truth.MdatPayloadSize == 0 && f.Mdat.PayloadAbsoluteOffset() != truth.MdatPayloadStart && c.avoid(st, "copysampledata-all-mdat-empty-wrong-box") {
+			*q--
+		} else {
+			if err := f.CopySampleData(&out, nil, trak, a, b, nil); err != nil {
+				return harness.Failf("C09|File.CopySampleData|error for valid interval", "CopySampleData(%d,%d): %v (N=%d)", a, b, err, n)
+			}
+			if !bytes.Equal(out.Bytes(), wantBytes) {
+				return harness.Failf("C09|File.CopySampleData|copied bytes differ", "CopySampleData(%d,%d) wrote %s, the samples are %s", a, b, harness.HexTrunc(out.Bytes(), 48), harness.HexTrunc(wantBytes, 48))
+			}
 		}
 		out.Reset()
 		var wsArg []byte
 		if (a+b)%2 == 1 {
 			wsArg = ws
+		}
+		// (an empty mdat box is never "lazy": the lazily decoded file takes the in-memory path as well)
+		if truth.MdatPayloadSize == 0 && fl.Mdat.PayloadAbsoluteOffset() != truth.MdatPayloadStart && c.avoid(st, "copysampledata-all-mdat-empty-wrong-box") {
+			*q--
+			return nil
 		}
 		if err := fl.CopySampleData(&out, rs, trakL, a, b, wsArg); err != nil {
 			return harness.Failf("C09|File.CopySampleData|error for valid interval (lazy mdat)", "CopySampleData(%d,%d) work space %d: %v (N=%d)", a, b, len(wsArg), err, n)
@@ -511,8 +593,13 @@ func evalTables(c *tablesCase, st *stats) *harness.Fail {
 		{"TrakBox.GetSampleData", 1, u + 1, func(a, b uint32) error { _, err := trak.GetSampleData(a, b); return err }},
 		{"TrakBox.GetRangesForSampleInterval", 0, u, func(a, b uint32) error { _, err := trak.GetRangesForSampleInterval(a, b); return err }},
 		{"TrakBox.GetRangesForSampleInterval", 1, u + 1, func(a, b uint32) error { _, err := trak.GetRangesForSampleInterval(a, b); return err }},
-		{"File.CopySampleData", 0, u, func(a, b uint32) error { return f.CopySampleData(sink, nil, trak, a, b, nil) }},
-		{"File.CopySampleData", 1, u + 1, func(a, b uint32) error { return f.CopySampleData(sink, nil, trak, a, b, nil) }},
+	}
+	wrongMdat := truth.MdatPayloadSize == 0 && f.Mdat.PayloadAbsoluteOffset() != truth.MdatPayloadStart && c.avoid(st, "copysampledata-all-mdat-empty-wrong-box")
+	if c.OffsetShift == 0 && !wrongMdat {
+		errqs = append(errqs,
+			errq{"File.CopySampleData", 0, u, func(a, b uint32) error { return f.CopySampleData(sink, nil, trak, a, b, nil) }},
+			errq{"File.CopySampleData", 1, u + 1, func(a, b uint32) error { return f.CopySampleData(sink, nil, trak, a, b, nil) }},
+		)
 	}
 	if n >= 2 {
 		errqs = append(errqs,
@@ -562,10 +649,19 @@ func genCase(t *rapid.T, variant string) tablesCase {
 		maxN = harness.Pick(60, 120) // some cases above the all-intervals bound in the quick tier as well
 	}
 	tracks := mp4build.GenTracks(t, mp4build.GenOpt{MaxSamples: maxN, AllowFinalZeroDur: true, ExtremeCto: true, ExtremeDur: true,
-		StsdEntries: rapid.SampledFrom([]int{1, 1, 2, 3}).Draw(t, "stsdEntries")})
+		AllowZeroSize: rapid.IntRange(0, 2).Draw(t, "allowZeroSize") == 0,
+		StsdEntries:   rapid.SampledFrom([]int{1, 1, 2, 3}).Draw(t, "stsdEntries")})
 	c := tablesCase{Tracks: tracks, Variant: variant}
 	c.Layout = mp4build.GenProgLayout(t, tracks)
 	c.TrackIndex = rapid.IntRange(0, len(tracks)-1).Draw(t, "trackIndex")
+	// zero-count stts/ctts entries on the evaluated track, one case in five
+	if rapid.IntRange(0, 4).Draw(t, "zeroRuns") == 0 {
+		mp4build.GenZeroRuns(t, tracks[c.TrackIndex], &c.Layout.Tracks[c.TrackIndex])
+	}
+	// co64 offsets beyond 32 bits (only the rebuilt tables can have them: the file is small)
+	if variant == "api" && c.Layout.Tracks[c.TrackIndex].Co64 && rapid.IntRange(0, 2).Draw(t, "offsetShift") == 0 {
+		c.OffsetShift = 1 << 33
+	}
 	n := len(tracks[c.TrackIndex].Samples)
 	if n > allIntervalsMax {
 		c.Intervals = [][2]uint32{{1, uint32(n)}, {1, 1}, {uint32(n), uint32(n)}}
@@ -639,6 +735,30 @@ func classify(c *tablesCase) (nontrivial bool, classes []string) {
 	add(n <= allIntervalsMax, "N<=40-all-intervals", "N>40-drawn-intervals")
 	add(n == 1, "N=1", "")
 	add(tr.Samples[n-1].Dur == 0, "final-zero-duration", "")
+	add(len(tl.SttsZero) > 0, "stts-zero-count-entry", "")
+	add(len(tl.CttsZero) > 0 && tl.CttsVersion >= 0, "ctts-zero-count-entry", "")
+	for _, z := range tl.SttsZero {
+		add(z.At >= sttsRuns, "stts-zero-count-entry-last", "")
+		add(z.At == 0, "stts-zero-count-entry-first", "")
+	}
+	empty, emptyChunk := 0, false
+	si := 0
+	for _, cs := range tl.ChunkSizes {
+		bytesInChunk := 0
+		for k := 0; k < cs; k++ {
+			if len(tr.Samples[si].Data) == 0 {
+				empty++
+			}
+			bytesInChunk += len(tr.Samples[si].Data)
+			si++
+		}
+		emptyChunk = emptyChunk || bytesInChunk == 0
+	}
+	add(empty > 0, "zero-size-sample", "")
+	add(empty == n, "zero-size-all-samples", "")
+	add(emptyChunk, "zero-size-chunk", "")
+	add(len(tr.Samples[n-1].Data) == 0, "zero-size-last-sample", "")
+	add(c.OffsetShift != 0, "co64-offsets-beyond-32-bits", "")
 	add(c.Layout.MdatFirst, "mdat-first", "moov-first")
 	add(c.Layout.MdatLarge, "mdat-largesize", "")
 	add(c.Layout.GapBytes != nil, "gaps-between-chunks", "")
@@ -682,7 +802,8 @@ func runTables(t *testing.T, variant string) {
 func TestTables(t *testing.T) { runTables(t, "decode") }
 
 // TestTablesAPI: the same queries on table boxes built through the library's construction API
-// (struct fields, CttsBox.AddSampleCountsAndOffset, StscBox.AddEntry, CreateSdtpBox/NewSdtpEntry).
+// (struct fields, CttsBox.AddSampleCountsAndOffset, StscBox.AddEntry, CreateSdtpBox/NewSdtpEntry), plus
+// StscBox.SetSingleSampleDescriptionID on a copy and, on co64 tracks, chunk offsets shifted by 2^33.
 func TestTablesAPI(t *testing.T) { runTables(t, "api") }
 
 // ---------------------------------------------------------------------------------------------
@@ -713,15 +834,43 @@ func knownFindingCases() map[string]tablesCase {
 	}
 }
 
+// pendingFindingCases: minimal reproducers of the findings that wait for triage
+// (VERIF_C09_WRITE_PENDING=1 go test -tags verif ./props/c09 -run TestWritePendingFindingRepros writes
+// them to /verif/replay/C09/pending/new-<name>.json, a directory the driver does not replay).
+func pendingFindingCases() map[string]tablesCase {
+	empty := minimalCase("decode",
+		[]mp4build.Sample{{Data: []byte{}, Dur: 1, Sync: true}},
+		mp4build.TrackLayout{ChunkSizes: []int{1}, CttsVersion: -1})
+	empty.Layout.Trail = []string{"mdat0"}
+	return map[string]tablesCase{
+		// stts [(2,10),(1,0),(0,5)]: GetSampleNrAtTime(20) must give sample 3
+		"stts-getsamplenrattime-final-zero-dur-before-zero-count-entry": minimalCase("decode",
+			[]mp4build.Sample{{Data: []byte{0xa1}, Dur: 10, Sync: true}, {Data: []byte{0xa2}, Dur: 10, Sync: true}, {Data: []byte{0xa3}, Dur: 0, Sync: true}},
+			mp4build.TrackLayout{ChunkSizes: []int{3}, CttsVersion: -1, SttsZero: []mp4build.ZeroRun{{At: 2, Value: 5}}}),
+		// ftyp moov mdat(empty) mdat(empty), one sample of size 0 whose chunk offset points into the first mdat
+		"copysampledata-all-mdat-empty-wrong-box": empty,
+	}
+}
+
+func TestWritePendingFindingRepros(t *testing.T) {
+	if os.Getenv("VERIF_C09_WRITE_PENDING") == "" {
+		t.Skip("VERIF_C09_WRITE_PENDING not set")
+	}
+	writeRepros(t, harness.E.VerifDir+"/replay/C09/pending", "new-", pendingFindingCases())
+}
+
 func TestWriteKnownFindingRepros(t *testing.T) {
 	if os.Getenv("VERIF_C09_WRITE_KF") == "" {
 		t.Skip("VERIF_C09_WRITE_KF not set")
 	}
-	dir := harness.E.VerifDir + "/replay/C09"
+	writeRepros(t, harness.E.VerifDir+"/replay/C09", "kf-", knownFindingCases())
+}
+
+func writeRepros(t *testing.T, dir, prefix string, cases map[string]tablesCase) {
 	if err := os.MkdirAll(dir, 0o755); err != nil {
 		t.Fatal(err)
 	}
-	for name, c := range knownFindingCases() {
+	for name, c := range cases {
 		c := c
 		f := harness.Guarded(func() *harness.Fail { return checkTables(c) })
 		if f == nil {
@@ -734,7 +883,7 @@ func TestWriteKnownFindingRepros(t *testing.T) {
 			msg = msg[:i]
 		}
 		b, _ := json.MarshalIndent(harness.ReplayFile{Property: "C09", Kind: "tables", Key: f.Key, Msg: msg, Case: raw}, "", " ")
-		if err := os.WriteFile(dir+"/kf-"+name+".json", append(b, '\n'), 0o644); err != nil {
+		if err := os.WriteFile(dir+"/"+prefix+name+".json", append(b, '\n'), 0o644); err != nil {
 			t.Fatal(err)
 		}
 		t.Logf("%s: %s", name, f.Key)
